@@ -445,11 +445,13 @@ def r5(cx, rec):
                     rec.site(g, sb2, 'with_am_unchoked == true -> Unchoke')
     rec.need(ok, 'bitfield-reply-mapping', f, None, 'the reply flag with_am_unchoked is not mapped to sending Unchoke')
     # same string for map key and task address at the spawn sites
+    ctor = [t for t in {tgt for g in F.user_fns() for bb, tgt in C.local_calls(F, g)} if t.endswith('PeerHandler::new')]
+    sites = C.ctor_sites(F, ctor[0]) if ctor else []
     for g in F.user_fns():
-        ph = [bb for bb in mirq.real_calls(g) if (g.blocks[bb]['t'].get('callee') or '').endswith('PeerHandler::new')]
+        ph = [(bb, a) for g2, bb, a in sites if g2 is g]
         ins = [bb for bb in mirq.real_calls(g) if g.blocks[bb]['t'].get('name') == 'insert' and (access_path(g.expr_call(bb)[2][0]) or '').split('.')[-1] == V.peers_map(F)]
-        for pb in ph:
-            a = show(mirq.strip(g.expr_call(pb)[2][0]))
+        for pb, pargs in ph:
+            a = show(mirq.strip(pargs[0]))
             ks = [show(mirq.strip(g.expr_call(ib)[2][1])) for ib in ins]
             rec.site(g, pb, 'task address %s, map key %s' % (a, ks))
             rec.need(bool(ks) and all(k == a for k in ks), 'addr-key-mismatch/' + F.owner_fn(g).path, g, pb, 'peer map key %s differs from the task address %s' % (ks, a))
